@@ -573,6 +573,29 @@ def _run_case(env: Env, case: dict[str, Any], scratch: str, want_trace: bool) ->
                 if bad:
                     record_violation(f"C14/recovery-failed/{mode_cls}", faults, knobs, {"recovery": bad, "fired": fired})
 
+    xval = {"compared": 0, "mismatch": 0}
+
+    def cross_validate(faults: list[dict[str, Any]]) -> None:
+        """Same crash plan in a forked process that really dies (os._exit) vs. the SimCrash stub."""
+        ex_a, res_a = _exec_once(case, scratch, faults, {"listing": "native"}, None)
+        if not res_a.crashed:
+            return
+        tree_a = _norm_tree(simproc.snapshot(ex_a.root))
+        root_b = os.path.join(scratch, "t")  # same path, rebuilt by Exec
+        pid = os.fork()
+        if pid == 0:
+            try:
+                exb = Exec(case, root_b, faults, {"listing": "native", "real_exit": True}, None)
+                exb.run()
+            finally:
+                os._exit(0)
+        _, status = os.waitpid(pid, 0)
+        tree_b = _norm_tree(simproc.snapshot(root_b))
+        xval["compared"] += 1
+        if tree_a != tree_b or os.waitstatus_to_exitcode(status) != 137:
+            xval["mismatch"] += 1
+            xval.setdefault("first", {"faults": faults, "status": status, "diff": sorted(k for k in set(tree_a) | set(tree_b) if tree_a.get(k) != tree_b.get(k))[:5]})
+
     if "faults" in case:
         # explicit replay of one faulted execution
         strict = bool(case["faults"]) and all(f["kind"] in LEGAL_KINDS for f in case["faults"]) or (not case["faults"] and bool(case.get("knobs")))
@@ -599,6 +622,10 @@ def _run_case(env: Env, case: dict[str, Any], scratch: str, want_trace: bool) ->
         # legal-knob variants: chunked transfers, EINTR, buffer sizes, listing order
         for kn in gen_knob_variants(rng):
             one([], kn, True)
+        # cross-validation of the process-death stub against a process that really dies
+        crash_plans = [p for p in enumerate_single_faults(base_log, rng, tier) if p[0]["kind"] in ("crash_before", "crash_after", "torn_crash") and base_log[p[0]["at"]].op in simproc.MUTATING]
+        for plan in rng.sample(crash_plans, min(len(crash_plans), 2 if tier == "quick" else 8)):
+            cross_validate(plan)
     counters.update({
         "executions": n_exec,
         "executions_with_fired_fault": n_fired,
@@ -606,7 +633,11 @@ def _run_case(env: Env, case: dict[str, Any], scratch: str, want_trace: bool) ->
         "fires": fires,
         "legal_fires": legal_fires,
         "probes": probes,
+        "crash_stub_vs_real_exit_compared": xval["compared"],
+        "crash_stub_vs_real_exit_mismatch": xval["mismatch"],
     })
+    if xval["mismatch"]:
+        return {"verdict": "harness_error", "trace": "SimCrash stub and real os._exit disagree: " + repr(xval.get("first")), "digest": "", "counters": counters}
     log_digest = digest([[o.rec() for o in base_log], n_exec, n_fired, sorted(fires.items()), sorted(probes.items()), [v["fingerprint"] for v in violations], res0.exit, digest(res0.stdout)], 24)
     res: dict[str, Any] = {
         "verdict": "violation" if violations else "ok",
@@ -667,6 +698,7 @@ def evidence_extras(counters: dict[str, Any], sets: dict[str, set[str]], runs: d
         "legal_io_fires": counters.get("legal_fires", {}),
         "reach_probes": counters.get("probes", {}),
         "single_fault_sweep_exhaustive_per_workload": True,
+        "crash_stub_cross_validated_against_real_process_exit": {"compared": counters.get("crash_stub_vs_real_exit_compared", 0), "mismatches": counters.get("crash_stub_vs_real_exit_mismatch", 0)},
     }
 
 
